@@ -1,5 +1,6 @@
 """C04: variants loses no nucleotide difference and every aa call is a true translation."""
 import common as cm
+import cmdlayer
 import gen
 import anno
 import vcommon
@@ -88,4 +89,13 @@ _state = {}
 
 
 def coverage_extra(ctx):
-    return {"sam_form_runs": _state.get("sam_form_runs", 0)}
+    return {"binary_runs": _cmd_state.get("binary_runs", 0), "sam_form_runs": _state.get("sam_form_runs", 0)}
+
+
+def extra(ctx, obl, cases, obs):
+    """the command through the built binary (cmd/*.go): binary = library entry point, and the option handling the command does itself"""
+    n = 2 if ctx.tier == "quick" else 12
+    _cmd_state["binary_runs"] = cmdlayer.variants_layer(ctx, n)
+
+
+_cmd_state = {}
